@@ -51,6 +51,10 @@ type Case struct {
 	InitKeys []int  `json:"init_keys"` // explicit: initial key list; legacy: [k]
 	Rounds   [][]Op `json:"rounds"`
 	Seed     uint64 `json:"seed"`
+	// ServerCaps (TLS <= 1.2 only): the negotiated version is limited by the SERVER's MaxVersion
+	// while the client allows every version (otherwise by the client's MaxVersion), so that the
+	// ClientHello's legacy version differs from the negotiated one.
+	ServerCaps bool `json:"server_caps,omitempty"`
 }
 
 const (
@@ -147,6 +151,9 @@ func (w *world) serverConfig(foreign bool) *tls.Config {
 	sv := tlsgen.Server{Key: w.c.SKey}
 	cfg := sv.Config()
 	cfg.Time = w.now
+	if w.c.ServerCaps && w.c.Version != tlsgen.TLS13 {
+		cfg.MaxVersion = w.c.Version
+	}
 	if w.c.Version != tlsgen.TLS13 {
 		cfg.CipherSuites = []uint16{w.c.Suite, altSuite(w.c.Suite), fallbackSuite(w.c.Suite)}
 	}
@@ -173,6 +180,9 @@ func (w *world) serverConfig(foreign bool) *tls.Config {
 func (w *world) clientConfig(ch *cache, dropSuite, lowerVersion bool) *tls.Config {
 	cl := tlsgen.Client{}
 	cl.MaxVersion = w.c.Version
+	if w.c.ServerCaps && w.c.Version != tlsgen.TLS13 {
+		cl.MaxVersion = 0 // every version; the server's MaxVersion decides
+	}
 	if lowerVersion {
 		cl.MaxVersion = w.c.Version - 1
 	}
@@ -694,6 +704,9 @@ func genKeys(t *rapid.T, label string, cur []int) []int {
 func gen(t *rapid.T) Case {
 	b := rapid.SampledFrom(bases).Draw(t, "base")
 	c := Case{Version: b.version, Suite: b.suite, SKey: b.skey, Seed: rapid.Uint64().Draw(t, "seed")}
+	if b.version != tlsgen.TLS13 {
+		c.ServerCaps = rapid.IntRange(0, 2).Draw(t, "server-caps") == 0
+	}
 	c.KeyMode = rapid.SampledFrom([]string{"explicit", "explicit", "legacy", "auto"}).Draw(t, "keymode")
 	switch c.KeyMode {
 	case "explicit":
